@@ -10,6 +10,9 @@
 void harness(void) {
 	VERIF_ctx_init(); KSI_CTX *ctx = VERIF_ctx;
 	u64 a = ND(u64, a), b = ND(u64, b);
+#ifdef A_POOLED   /* the four instances (pooled / heap value for a and for b) together cover all pairs */
+	ASSUME(A_POOLED ? a < 256 : a >= 256); ASSUME(B_POOLED ? b < 256 : b >= 256);
+#endif
 	KSI_Integer *x = NULL, *y = NULL; int res;
 	res = KSI_Integer_new(ctx, a, &x); CHECK(res == KSI_OK && x != NULL, "C18.H3int KSI_Integer_new succeeds for every value");
 	res = KSI_Integer_new(ctx, b, &y); CHECK(res == KSI_OK && y != NULL, "C18.H3int KSI_Integer_new succeeds for every second value");
@@ -18,9 +21,24 @@ void harness(void) {
 	int c = KSI_Integer_compare(x, y);
 	CHECK((c < 0) == (a < b) && (c > 0) == (a > b) && (c == 0) == (a == b), "C18.H3int compare is the order of the values");
 	CHECK(KSI_Integer_compare(x, NULL) > 0 && KSI_Integer_compare(NULL, y) < 0 && !KSI_Integer_equals(x, NULL), "C18.H3int an absent integer sorts first and equals nothing");
-	if (a == b && a < 256) { CHECK(x == y, "C18.H3int pooled values share one object"); WITNESS_POINT("same pooled value twice"); }
+	if (a == b && a < 256) {
+		CHECK(x == y, "C18.H3int pooled values share one object");
+#if !defined(A_POOLED) || (A_POOLED && B_POOLED)
+		WITNESS_POINT("same pooled value twice");
+#endif
+	}
+#if !defined(A_POOLED) || (A_POOLED && !B_POOLED)
 	if (a < 256 && b >= 256 && a < b) WITNESS_POINT("pooled vs heap value");
-	if (a >= 256 && a == b) { CHECK(x != y, "C18.H3int heap values are separate objects"); WITNESS_POINT("equal heap values"); }
+#endif
+	if (a >= 256 && a == b) {
+		CHECK(x != y, "C18.H3int heap values are separate objects");
+#if !defined(A_POOLED) || (!A_POOLED && !B_POOLED)
+		WITNESS_POINT("equal heap values");
+#endif
+	}
+#if defined(A_POOLED) && !A_POOLED && B_POOLED
+	if (a > b) WITNESS_POINT("heap vs pooled value");
+#endif
 	KSI_Integer_free(x); KSI_Integer_free(y);
 	/* values read after free only for pool entries (never freed) */
 	if (a < 256) CHECK(KSI_Integer_getUInt64(x) == a, "C18.H3int pool entries survive KSI_Integer_free");
